@@ -214,6 +214,18 @@ def gen_union(rng, tier):
             if uid in deser_unions:
                 deser_unions.add(d)
             uid = d
+    if rng.random() < 0.35 and uid not in deser_unions:
+        # ASSIGN the union into another live union that holds something else (nothing, an exact sketch, a sampling sketch): every bit
+        # of gadget bookkeeping (marks in H, outer tau) has to travel with the items; then resolve both
+        t = g.new_id()
+        g.lines.append("unew %d %d" % (t, rng.choice([maxk, 4, 32])))
+        if rng.random() < 0.6:
+            g.lines.append("umerge %d %d %s" % (t, rng.choice(sks)[0], draws(rng, 34, 34)))
+        g.lines.append("ucopy %d %d" % (uid, t))
+        res(t)
+        if rng.random() < 0.5:
+            g.lines.append("umerge %d %d %s" % (t, rng.choice(sks)[0], draws(rng, 34, 34)))
+            res(t)
     d = res(uid)
     # the result is an ordinary sketch: keep updating it
     if rng.random() < 0.7:
